@@ -40,9 +40,12 @@ __all__ = [
 logger = logging.getLogger(__name__)
 
 
-def _redshift_histogram(patch: Patch, binning: Binning) -> NDArray:
+def _redshift_histogram(
+    patch_idx: int, patch: Patch, binning: Binning
+) -> tuple[int, NDArray]:
     """Worker function that computes a redshift histgram from a given patch and
-    binning."""
+    binning. Returns the patch index along with the counts, since results may
+    arrive in any order when running in parallel."""
     redshifts = patch.redshifts
     # numpy histogram uses the bin edges as closed intervals on both sides
     if binning.closed == "right":
@@ -53,7 +56,7 @@ def _redshift_histogram(patch: Patch, binning: Binning) -> NDArray:
     weights = patch.weights[mask] if patch.has_weights else None
 
     counts, _ = np.histogram(redshifts[mask], binning.edges, weights=weights)
-    return counts.astype(np.float64)
+    return patch_idx, counts.astype(np.float64)
 
 
 def resample_jackknife(observations: NDArray, patch_rows: bool = True) -> NDArray:
@@ -129,15 +132,16 @@ class HistData(CorrData):
 
         patch_count_iter = parallel.iter_unordered(
             _redshift_histogram,
-            catalog.values(),
+            enumerate(catalog.values()),
             func_kwargs=dict(binning=config.binning),
+            unpack=True,
             max_workers=max_workers,
         )
         if progress:
             patch_count_iter = Indicator(patch_count_iter, len(catalog))
 
         counts = np.empty((len(catalog), config.num_bins))
-        for i, patch_count in enumerate(patch_count_iter):
+        for i, patch_count in patch_count_iter:
             counts[i] = patch_count
         parallel.COMM.Bcast(counts, root=0)
 
